@@ -596,7 +596,6 @@ func (c *Ctx) NoStaleSliceAlias(rule string, fn *ssa.Function, typ, field string
 	return n
 }
 
-
 // fieldMutated: some function of the module stores to field name of struct
 // type typ through a pointer that is not a local variable of that function
 // (i.e. after construction).
